@@ -7,6 +7,7 @@ import (
 	"strconv"
 	"strings"
 	"sync"
+	"sync/atomic"
 	"time"
 
 	"github.com/alibaba/RedisShake/pkg/libs/log"
@@ -174,6 +175,19 @@ func runC08(r resIface, c *c08case, cfg *e2eCfg, rng *prng.R) {
 			return
 		}
 		prev = a.Value
+		// freshness: what the master had written 0.7 s before this ACK arrived had long been received (loopback), so an
+		// ACK that "equals start + bytes received" covers it. A process that cannot keep a 20 ms timer within 0.3 s
+		// is too loaded for this comparison: inconclusive then.
+		if old := e.Src.WrittenBefore(a.At.Add(-700 * time.Millisecond)); a.Value < c.StartOffset+old {
+			r.Count("acks_judged_stale", 1)
+			if lag := lagSoFar(); lag > 300*time.Millisecond {
+				r.Inconcl(fmt.Sprintf("ACK %d looked stale while this process delayed a 20 ms timer by %v", a.Value, lag))
+				return
+			}
+			r.Violation(sig("ack-behind-received"), fmt.Sprintf("REPLCONF ACK %d arrived although the master had written up to offset %d more than 0.7 s earlier (start %d + %d bytes): the acknowledged offset is not start + bytes received", a.Value, c.StartOffset+old, c.StartOffset, old), c)
+			return
+		}
+		r.Count("acks_checked_for_freshness", 1)
 	}
 	var lastQuiet *fakesource.Ack
 	for i := range acks {
@@ -255,6 +269,27 @@ func runC08(r resIface, c *c08case, cfg *e2eCfg, rng *prng.R) {
 	}
 }
 
+// timer lag of this process (max overshoot of a 20 ms sleep since the monitor started), for timing comparisons
+var lagMon struct {
+	once sync.Once
+	max  int64
+}
+
+func lagSoFar() time.Duration {
+	lagMon.once.Do(func() {
+		go func() {
+			for {
+				t := time.Now()
+				time.Sleep(20 * time.Millisecond)
+				if d := int64(time.Since(t) - 20*time.Millisecond); d > atomic.LoadInt64(&lagMon.max) {
+					atomic.StoreInt64(&lagMon.max, d)
+				}
+			}
+		}()
+	})
+	return time.Duration(atomic.LoadInt64(&lagMon.max))
+}
+
 type c08extra struct {
 	Resume bool `json:"resume"`
 }
@@ -267,6 +302,7 @@ func c08histChild(raw json.RawMessage, scratch string) {
 		log.SetLevel(log.LEVEL_INFO)
 	}
 	r := wk.ChildRes("C08")
+	lagSoFar() // starts the timer-lag monitor
 	inChild = true
 	base := prng.New(a.Seed).Split(0xC08)
 	cfg := &e2eCfg{Resume: ex.Resume, TargetDB: -1, SenderCount: 16, SenderSize: 65535, Parallel: 2, Metric: true}
